@@ -276,6 +276,31 @@ PROPS = {
         level_text="Generated search against an independent segment clipper, including order/direction. Exploration only.",
         level_note="trusts the Liang-Barsky reference in prop_C08.cpp, g++, rapidcheck",
     ),
+    "C18": dict(
+        bins={"main": dict(tc="gcc", src="prop_C18.cpp", variants=["plain", "hp"], shims=["hp"], extra_srcs=["port_core.cpp"])},
+        parts=[
+            dict(name="pred", workers={Q: 6, T: 6}, cases={Q: 60000, T: 3000000}),
+            dict(name="pip", workers={Q: 4, T: 4}, cases={Q: 60000, T: 3000000}),
+            dict(name="segint", workers={Q: 4, T: 4}, cases={Q: 150000, T: 6000000}),
+            dict(name="area", workers={Q: 2, T: 2}, cases={Q: 100000, T: 4000000}),
+        ],
+        rule=("(pred) boundary-biased 64-bit values (0, +-1, +-2^31, 2^32+-1, +-2^61, +-(2^62-1), INT64 extremes, random bit "
+              "lengths): Multiply on all of uint64 against unsigned __int128; ProductsAreEqual on random and constructed-equal "
+              "quadruples; CrossProductSign/IsCollinear on random, permuted, degenerate and exactly-collinear / off-by-one "
+              "triples (p, p+kd, p+md) - each on the native __int128 path AND on the portable 64x64 path compiled by "
+              "redefining UINTPTR_MAX (port_core.cpp), both against exact __int128 arithmetic; (pip) random / rectilinear / "
+              "degenerate polygons up to 2^25 with queries on vertices, on edges, level with vertices and random: exact "
+              "on/inside/outside by the even-odd rule; (segint) random, exactly parallel, end-sharing and constructed "
+              "crossing segment pairs up to 2^40 on the default and HI_PRECISION builds: parallel <=> exact zero determinant, "
+              "crossing point within 1 unit per axis of the exact rational crossing and within 1 unit of segment 1; (area) "
+              "Area against the exact shoelace within the floating-point error bound of the summation. Non-trivial = a "
+              "product beyond 2^64 / a query on the boundary or level with a vertex / a proper crossing / non-zero area"),
+        assumptions=["coordinate differences fit int64 (stated precondition); triples that violate it are skipped",
+                     "segment pairs with conditioning K = max|coord| |d1||d2| / |d1 x d2| >= 2^46 (2^50 for the parallel report) are the listed class KF-C18-a"],
+        technique="property-based testing (rapidcheck): differential against exact __int128 / rational arithmetic, native and portable code paths",
+        level_text="Generated search with boundary-biased generators against exact integer arithmetic on both multiplication code paths and both precision builds. Exploration only.",
+        level_note="trusts __int128 arithmetic of the compiler, long double for the rational crossing point, rapidcheck",
+    ),
     "C02": dict(
         bins={"main": dict(tc="gcc", src="prop_C02.cpp", variants=["plain"])},
         parts=[
